@@ -15,7 +15,8 @@ PROP = 'C06'
 TRUSTED = [
     'modelled, not verified: genshi/filters/html.py HTMLSanitizer (__call__, is_safe_elem, is_safe_uri, is_safe_css, '
     'sanitize_css, _replace_unicode_escapes, _strip_css_comments) and genshi/util.py stripentities: hand-written Lean '
-    'model tied by correspondence on tag soup, raw event streams, CSS texts, URIs and entity texts',
+    'model tied by correspondence on tag soup, raw event streams, CSS texts, URIs and entity texts, each helper also by '
+    'itself, and at depths beyond the recursion limit of the interpreter (stream deep)',
     'not modelled: the `re` engine (the five regular expressions are re-implemented as list scanners), html.parser and '
     'the serializers (exercised by the re-parse oracle only), str.lower beyond the generated per-character table '
     '(final-sigma context)',
